@@ -151,4 +151,14 @@ theorem C07_stop_blind (cfg : ReaderCfg) (cols : List Column) (checks : List (Ch
   obtain ⟨t, ht⟩ := (C07_prefix_blind cfg cols checks fault a b before).1
   rw [← ht, List.take_append_of_le_length hk]
 
+/-- non-vacuity of `C07_stop_blind`: two rows give two events, so a reader abandoned after two events has delivered the same
+whatever follows - here a third row and a container fault -/
+example :
+    let col : Column := ⟨fun v => .inr v, fun v => v != ['x']⟩
+    (readRows (σ := Unit) ⟨.yield, 0, none⟩ [col] [] true ([[['a']], [['x']]] ++ [[['b']]]) []).events.take 2
+      = [.row [['a']], .err 1 (.field 0)] := by
+  intro col
+  rw [C07_stop_blind ⟨.yield, 0, none⟩ [col] [] true [[['a']], [['x']]] [[['b']]] [] 2 (by decide)]
+  decide
+
 end Cutplace.Props
